@@ -140,7 +140,14 @@ impl Prop for C05 {
                     LefCfg { liberal_versions: true, ..Default::default() }
                 };
                 let g = rand_lef(&mut cx.rng, &cfg);
-                let (text, _) = render(&g, &cfg, &mut cx.rng, Style::plain());
+                // every 15th source carries a SITE ROWPATTERN statement: the reader documents it as unsupported and refuses the library; if it
+                // ever accepts it, what it returns is a library "the reader can produce" and must survive the trip like any other
+                let mut style = Style::plain();
+                if cx.n % 15 == 11 && !g.lib.sites.is_empty() {
+                    style.rowpattern = true;
+                    cx.count("sources_with_rowpattern");
+                }
+                let (text, _) = render(&g, &cfg, &mut cx.rng, style);
                 match open_text(cx, &text) {
                     Ok(Ok(lib)) => {
                         cx.nontrivial(feature_bits(&lib) | 1 << 61);
